@@ -164,6 +164,40 @@ func checkC05(c *Ctx) {
 			c.undecided("C05-CAP", "*", "capture sites", token.NoPos, fmt.Sprintf("only %d functions capture the control state (5 confirmed by reading)", n))
 		}
 	}
+	// a Go builtin may call back into the VM; the place that calls it (through SexpFunction.userfun) is a re-entry
+	// point and needs the bracket: the call comes after a capture in the same function (or its enclosing function)
+	if capF != nil {
+		userfun := c.mustField("C05-CAP", "SexpFunction", "userfun")
+		nUF := 0
+		for _, f := range c.zygoFuncs() {
+			eachInstr(f, func(b *ssa.BasicBlock, i int, in ssa.Instruction) {
+				call, ok := in.(*ssa.Call)
+				if !ok || call.Call.StaticCallee() != nil || call.Call.IsInvoke() || userfun == nil {
+					return
+				}
+				if _, via := loadOfField(call.Call.Value, userfun); !via {
+					return
+				}
+				nUF++
+				bracketed := false
+				for _, cp := range callsOf(f, capF) {
+					if dominatesInstr(cp.(ssa.Instruction), call) {
+						bracketed = true
+					}
+				}
+				if !bracketed && f.Parent() != nil {
+					// a closure run inside the enclosing function's bracket: the capture precedes the closure's creation or call
+					bracketed = len(callsOf(f.Parent(), capF)) > 0
+				}
+				c.check(bracketed, "C05-CAP", fnName(f), "Go builtin called inside a capture/restore bracket", call.Pos(),
+					"the control state is captured before the builtin is called",
+					"a Go builtin is called through userfun with no captured control state: when the builtin re-enters the VM (eval, map, a selector argument) and fails there, the caller gets the error but the VM stays inside the aborted call; a host function built on Apply that handles the error turns the rest of the running program into a no-op with a success result")
+			})
+		}
+		if nUF < 2 {
+			c.undecided("C05-CAP", "*", "builtin call sites", token.NoPos, fmt.Sprintf("only %d calls through SexpFunction.userfun found (2 confirmed by reading)", nUF))
+		}
+	}
 	if callFn != nil && capF != nil {
 		for f, calls := range c.callersOf(callFn) {
 			own := len(callsOf(topFn(f), capF)) > 0
